@@ -160,17 +160,49 @@ def bi_sliceiter_next_back(eng, st, args, d, r, callee=''):
     eng.store_ref(st, itref, Agg('SliceIter', (rf, lo, S(hi.v - 1, 'usize'))))
     return ('value', En('Option', S(1, 'isize'), {1: (Ref(rf.cell, rf.path + (('i', S(hi.v - 1, 'usize')),)),)}))
 
+def bi_str_eq(eng, st, args, d, r, callee=''):
+    a, b = args
+    while isinstance(a, Ref): a = eng.deref(st, a)
+    while isinstance(b, Ref): b = eng.deref(st, b)
+    return ('value', S(sval(a) == sval(b), 'bool'))
+def bi_str_ne(eng, st, args, d, r, callee=''):
+    a, b = args
+    while isinstance(a, Ref): a = eng.deref(st, a)
+    while isinstance(b, Ref): b = eng.deref(st, b)
+    return ('value', S(sval(a) != sval(b), 'bool'))
+def bi_str_pred(fn):
+    def f(eng, st, args, d, r, callee=''):
+        a = args[0]; b = args[1]
+        while isinstance(a, Ref): a = eng.deref(st, a)
+        while isinstance(b, Ref): b = eng.deref(st, b)
+        pat = chr(b.v) if isinstance(b, S) else sval(b)
+        return ('value', S(fn(sval(a), pat), 'bool'))
+    return f
+def bi_str_trim(fn):
+    def f(eng, st, args, d, r, callee=''):
+        return ('value', PyStr(fn(sval(args[0]))))
+    return f
+def bi_str_split_once(eng, st, args, d, r, callee=''):
+    s = sval(args[0]); b = args[1]
+    pat = chr(b.v) if isinstance(b, S) else sval(b)
+    k = s.find(pat)
+    if k < 0: return ('value', En('Option', S(0, 'isize'), {0: ()}))
+    return ('value', En('Option', S(1, 'isize'), {1: (Agg('tuple', (PyStr(s[:k]), PyStr(s[k + len(pat):]))),)}))
+
 def install():
     B = E.BUILTIN_METHODS
+    B[('str', 'eq')] = bi_str_eq; B[('str', 'ne')] = bi_str_ne
+    B[('str', 'ends_with')] = bi_str_pred(lambda s, p: s.endswith(p)); B[('str', 'starts_with')] = bi_str_pred(lambda s, p: s.startswith(p))
+    B[('str', 'contains')] = bi_str_pred(lambda s, p: p in s)
+    B[('str', 'trim_end')] = bi_str_trim(lambda s: s.rstrip()); B[('str', 'trim_start')] = bi_str_trim(lambda s: s.lstrip()); B[('str', 'trim')] = bi_str_trim(lambda s: s.strip())
+    B[('str', 'split_once')] = bi_str_split_once
     B[('str', 'is_empty')] = bi_str_is_empty; B[('str', 'len')] = bi_str_len; B[('str', 'find')] = bi_str_find
     B[('str', 'index')] = bi_str_index
     B[('Formatter', 'write_str')] = bi_fmt_write_str; B[('Formatter', 'write_char')] = bi_fmt_write_char
     B[('Formatter', 'alternate')] = bi_fmt_alternate
     B[('Arguments', 'new')] = bi_arguments_new; B[('Argument', 'new_display')] = bi_argument_new; B[('Argument', 'new_debug')] = bi_argument_new
     B[('Write', 'write_fmt')] = bi_write_fmt; B[('Formatter', 'write_fmt')] = bi_formatter_write_fmt
-    B[('Vec', 'pop')] = bi_vec_pop
     for h in ('[IndentedBlockState]', '[&str]'):
         B[(h, 'len')] = bi_slice_len; B[(h, 'last')] = bi_slice_last; B[(h, 'last_mut')] = bi_slice_last
         B[(h, 'iter')] = bi_slice_iter; B[(h, 'index')] = bi_slice_range; B[(h, 'into_iter')] = bi_slice_iter
-    B[('SliceIter', 'next')] = bi_sliceiter_next; B[('SliceIter', 'next_back')] = bi_sliceiter_next_back
     B[('Range', 'into_iter')] = E.bi_identity
